@@ -80,10 +80,15 @@ class AstAnalyzer:
         """
 
         assigned_vars = self.assigned_vars(fun.body)
+        # A parameter of the function hides an outer-scope variable of the same name.
+        all_args = fun.args.posonlyargs + fun.args.args + fun.args.kwonlyargs
+        parameters = {arg.arg for arg in all_args}
         for node in ast.walk(fun):
             if isinstance(node, ast.If):
                 if isinstance(node.test, ast.Name):
                     python_var = node.test.id
+                    if python_var in parameters:
+                        continue
                     if python_var not in assigned_vars and python_var in globals:
                         # Condition depends on an outer-scope variable.
                         self._constant_if_condition[node] = bool(globals[python_var])
